@@ -5,6 +5,9 @@ import (
 	"encoding/json"
 	"flag"
 	"fmt"
+	"go/ast"
+	"go/parser"
+	"go/token"
 	"os"
 	"os/exec"
 	"path/filepath"
@@ -99,6 +102,48 @@ func loadSpec(prop string) (*Spec, error) {
 }
 
 var pkgRe = regexp.MustCompile(`(?m)^package\s+(\w+)`)
+var requiresRe = regexp.MustCompile(`(?m)^// verif:requires\s+(\S+)`)
+var harnessFnRe = regexp.MustCompile(`(?m)^func (VHarness_\w+)\(`)
+
+// skippedHarness: entry -> reason. A harness file may declare `// verif:requires name` (a top-level function
+// `f` or a method `T.m` of the package under test that the harness calls directly: a kernel lemma about an
+// unexported helper). When a tree no longer has that helper the lemma is moot: the file is left out, its
+// harnesses are reported as skipped, and the property is decided by the remaining (API-level) harnesses.
+var skippedHarness = map[string]string{}
+
+func pkgHasSymbol(dir, sym string) bool {
+	fset := token.NewFileSet()
+	pkgs, err := parser.ParseDir(fset, dir, func(fi os.FileInfo) bool {
+		return !strings.HasSuffix(fi.Name(), "_test.go") && !strings.HasPrefix(fi.Name(), "zz_verif_")
+	}, 0)
+	if err != nil {
+		return true // cannot tell: let the type checker decide
+	}
+	for _, p := range pkgs {
+		for _, f := range p.Files {
+			for _, d := range f.Decls {
+				fd, ok := d.(*ast.FuncDecl)
+				if !ok {
+					continue
+				}
+				name := fd.Name.Name
+				if fd.Recv != nil && len(fd.Recv.List) == 1 {
+					t := fd.Recv.List[0].Type
+					if st, ok := t.(*ast.StarExpr); ok {
+						t = st.X
+					}
+					if id, ok := t.(*ast.Ident); ok {
+						name = id.Name + "." + name
+					}
+				}
+				if name == sym {
+					return true
+				}
+			}
+		}
+	}
+	return false
+}
 
 // buildOverlay returns virtual path -> content for go/packages and virtual path -> real file for go test.
 func buildOverlay(spec *Spec, tmp string) (map[string][]byte, map[string]string, error) {
@@ -118,6 +163,18 @@ func buildOverlay(spec *Spec, tmp string) (map[string][]byte, map[string]string,
 			}
 			if m := pkgRe.FindSubmatch(b); m != nil && pkgName == "" {
 				pkgName = string(m[1])
+			}
+			missing := ""
+			for _, m := range requiresRe.FindAllSubmatch(b, -1) {
+				if !pkgHasSymbol(filepath.Join(repoDir, u.Dir), string(m[1])) {
+					missing = string(m[1])
+				}
+			}
+			if missing != "" {
+				for _, m := range harnessFnRe.FindAllSubmatch(b, -1) {
+					skippedHarness[string(m[1])] = fmt.Sprintf("the helper %s it is a lemma about is not in %s of this tree", missing, u.Dir)
+				}
+				continue
 			}
 			v := filepath.Join(repoDir, u.Dir, "zz_verif_"+filepath.Base(f))
 			ov[v] = b
@@ -323,6 +380,11 @@ func cmdCheck(args []string) int {
 		if !hasTier(h, *tier) || (*only != "" && !strings.Contains(h.Entry, *only)) {
 			continue
 		}
+		if why, skipped := skippedHarness[h.Entry]; skipped {
+			fmt.Printf("NOTE harness %s skipped: %s (the property is decided by the remaining harnesses)\n", h.Entry, why)
+			spec.Assumptions = append(spec.Assumptions, "harness "+h.Entry+" skipped: "+why)
+			continue
+		}
 		var fn *ssa.Function
 		for _, p := range pkgs {
 			if p != nil && strings.HasSuffix(p.Pkg.Path(), h.Dir) {
@@ -418,7 +480,14 @@ func cmdCheck(args []string) int {
 		for id, n := range r.Known {
 			knownHit[id] += n
 		}
+		if r.Skipped != "" {
+			fmt.Printf("NOTE harness %s skipped: %s (the property is decided by the remaining harnesses)\n", r.Name, r.Skipped)
+			spec.Assumptions = append(spec.Assumptions, "harness "+r.Name+" skipped: "+r.Skipped)
+		}
 		for _, c := range hs.Covers {
+			if r.Skipped != "" && r.Covers[c] == 0 {
+				continue
+			}
 			coverTotal++
 			if r.Covers[c] > 0 {
 				coverHit++
